@@ -40,7 +40,7 @@ CHECKS = {
          "The sunrise crate's astronomy is trusted up to the stated sanity relations; tzf-rs polygons up to a 6.5 h plausibility bound.", "DESIGN.md §3 C11"),
  "C12": ("model_checking", "exhaustive enumeration of the Python constructor-argument product (2688 combinations per expression) x expressions x datetimes x methods on the real extension module under CPython, differential against the Rust core evaluating the documented equivalent context",
          "Every constructor combination is executed in CPython and every observed value, zone, None and exception class is compared with the core; also validate/str/repr round trips (C06's Python clause).",
-         "CPython 3.11 + its zoneinfo; nonexistent aware datetimes only checked for panics; one under-documented argument combination accepts two readings.", "DESIGN.md §3 C12"),
+         "CPython 3.11 + its zoneinfo; nonexistent aware datetimes only checked for panics; one under-documented argument combination accepts two readings. intervals(start, end) is also driven with bounds of mixed awareness.", "DESIGN.md §3 C12"),
  "C13": ("model_checking", "bounded exhaustive enumeration of the normalisation family on the real normalize(): idempotence, determinism across clones/reparses/equal spellings, and printability of the normal form",
          "normalize(normalize(e)) == normalize(e) by AST equality for every expression of N, E2, E1 and the corpus; equal ASTs reached through different spellings normalise equally; the normal form round-trips by C06's criterion.",
          "Bounded by the family.", "DESIGN.md §3 C13"),
@@ -49,16 +49,16 @@ CHECKS = {
          "Trusts that Debug of Schedule renders its whole state (used for dedup); model is 30 lines of per-cell overlay.", "DESIGN.md §3 C14"),
  "C15": ("model_checking", "explicit-state exploration of the real CompactCalendar: every insertion history up to the depth bound over a collision-forcing date alphabet, full query battery and serialization round trips in every state, against a BTreeSet",
          "Every history (not only every state) up to the depth is executed; states merged by date set are shown observably equal on every history. Exhaustive within alphabet x depth; CompactMonth/CompactYear over all subsets of <=3 days x all queries.",
-         "Trusts std BTreeSet and chrono NaiveDate.", "DESIGN.md §3 C15"),
+         "Trusts std BTreeSet and chrono NaiveDate. Serialisation also goes through writers that accept 1/3/16/47 bytes per write call.", "DESIGN.md §3 C15"),
  "C16": ("model_checking", "exhaustive enumeration of (expression, bound, derived instant) triples on the real bounded next_change/state against the exact answer from the pointwise oracle P",
          "For 8 bounds from one day to a century, every instant placed at B, B-24h (each +-1 min) before every oracle boundary, at run starts and surrounding midnights: exact-or-none, exact within B-24h, none beyond B, state unchanged.",
-         "P uses the real schedule_at; for the one-kind family P covers 1899..2150 and only instants whose horizon lies inside it are used.", "DESIGN.md §3 C16"),
+         "P uses the real schedule_at; for the one-kind family P covers 1899..2150 and only instants whose horizon lies inside it are used. Time-zone contexts: around the 2024 transitions of four zones (and Apia 2011) the bounded answer is compared with the unbounded answer of the same context (DESIGN §11.9).", "DESIGN.md §3 C16"),
  "C17": ("model_checking", "bounded exhaustive enumeration of commented rule pairs/triples x days x iteration starts on the real schedule_at/iter_range against the reference model M with provenance (writer per minute, own cover per rule)",
          "Well-formedness of every reported comment set, emptiness where no rule contributes, exact comments on periods written by exactly one isolated rule, and first-interval comments equal to the schedule period containing the start; what the statement leaves free (merging on overlap/coalescing) is not asserted.",
          "Provenance comes from M (DESIGN §2.3).", "DESIGN.md §3 C17"),
  "C18": ("model_checking", "explicit enumeration of operation histories on the real code (all sequences up to the depth bound over an 11-operation alphabet colliding on the lazily built tables and shared Arcs; every order of first use in its own subprocess) against single-operation reference runs; loom exploration of thread interleavings of first use through a cfg-switched LazyLock facade",
          "Every history up to the bound and every first-use order is executed and each observation compared with the operation run alone in a fresh process; the loom harness explores all interleavings of concurrent first use up to the preemption bound.",
-         "std LazyLock/Arc/Once are trusted; plain memory accesses outside the LazyLock seam are not under a controlled scheduler (free-running threads are a smoke test only).", "DESIGN.md §3 C18"),
+         "std LazyLock/Arc/Once are trusted; plain memory accesses outside the LazyLock seam are not under a controlled scheduler (free-running threads are a smoke test only). The country lookup is additionally swept over a 3-degree grid sequentially, in threads and in a fresh process (all answers must agree).", "DESIGN.md §3 C18"),
  "C19": ("model_checking", "complete enumeration of the finite input space of the real ExtendedTime API against an integer-minute reference model",
          "Exhaustive: every (u8,u8), every u16, every valid time x every i16/i8 offset, every ordered pair; nothing is sampled, so within the stated API the property is decided, not estimated.",
          "Trusts chrono::NaiveTime accessors and the engine's 10-line integer model.", "DESIGN.md §3 C19"),
